@@ -246,6 +246,16 @@ pub fn exec_replay(path: &str, timeout: Duration) -> ExecResult {
         .rev()
         .find_map(|l| serde_json::from_str::<Outcome>(l).ok());
     let code = status.and_then(|s| s.code());
+    // a replay file of the fine-grained tier answers with its own verdict line
+    if let Some(v) = out.lines().rev().find_map(|l| serde_json::from_str::<serde_json::Value>(l).ok().filter(|v| v["fine"] == true)) {
+        let ok = v["ok"].as_bool().unwrap_or(false);
+        return ExecResult {
+            rule: if ok { None } else { Some(v["rule"].as_str().unwrap_or("crash").to_string()) },
+            detail: v["detail"].as_str().unwrap_or("").to_string(),
+            code,
+            hash: 0,
+        };
+    }
     match outcome {
         Some(o) => match o.verdict {
             Verdict::Violation { rule, detail } => ExecResult { rule: Some(rule), detail, code, hash: o.sim.log_hash },
